@@ -202,6 +202,14 @@ class PinWorld:
         ball.ambiguous = any(o is not ball and o.kind == "dev" and o.dev == info.name and
                              self.sim.now - o.since <= max(info.entrance_count_delay, info.exit_count_delay) + 0.1
                              for o in self.balls)
+        # arrival ambiguity: another ball reached the target a moment ago and the target has not finished counting it
+        # yet; that count completes after this departure and is taken for this ball's arrival
+        tinfo = self.devs.get(info.target.name)
+        if tinfo is not None and not ball.ambiguous and outcome != "fallback":
+            if any(o is not ball and o.kind == "dev" and o.dev == tinfo.name and
+                   self.sim.now - o.since <= tinfo.entrance_count_delay + 0.1 for o in self.balls):
+                ball.ambiguous = True
+                self.ctx.probe("arrival_ambiguity")
         if sw is not None:
             self._switch(sw, 0)
         elif info.entrance_switch is not None and info.entrance_full_timeout:
@@ -236,12 +244,13 @@ class PinWorld:
 
     # -- arrivals ------------------------------------------------------------------------------
     def _arrive(self, ball, dstname, fell_back):
-        # balls are indistinguishable: when two balls from the same source are under way to the same target (the
-        # first one late), the arrival of either confirms the source's *current* eject; the one still on its way is
-        # then unknown to any controller
+        # balls are indistinguishable: when two balls are under way to the same target (two from one source, the
+        # first one late; or one from a source device and one rolling in from the playfield), the arrival of either
+        # confirms the source's *current* eject; the one still on its way is then unknown to any controller
         for other in self.balls:
-            if other is not ball and other.kind == "transit" and other.src == ball.src and other.dst == dstname \
-                    and not fell_back:
+            if other is not ball and other.kind == "transit" and other.dst == dstname and not fell_back:
+                if other.src != ball.src and not other.ambiguous:
+                    self.ctx.probe("arrival_ambiguity")
                 other.ambiguous = True
         if dstname in self.devs:
             self._enter(ball, self.devs[dstname], fell_back)
